@@ -1,3 +1,4 @@
+import Pds.Proofs.KernelTie.TdGuard
 import Pds.Proofs.KernelTie.TdCore
 import Pds.Proofs.KernelTie.TdRead
 import Pds.Props.C15
@@ -84,5 +85,9 @@ theorem cdf_translated_in_unit {s : St α} (h : WF s) (x : α) {mn mx : α} (hmi
     ∃ v, Pds.Generated.Kernels.td_cdf s.centroids mn mx x = Flow.ret v ∧ 0 ≤ v ∧ v ≤ 1 := by
   obtain ⟨v, hv, h0, h1⟩ := Pds.Props.C15.cdf_in_unit h x
   exact ⟨v, by rw [td_cdf_eq s mn mx x hmin hmax, hv], h0, h1⟩
+
+/-- the range assertion of the public `quantile` (`(0. ..=1.).contains(&q)`) as translated is the model's guard -/
+theorem quantile_guard_translated (q : α) :
+    Pds.Generated.Kernels.td_quantile_guard q = if 0 ≤ q ∧ q ≤ 1 then Flow.ret true else Flow.panic := td_quantile_guard_eq q
 
 end Pds.Tie.C15
